@@ -10,7 +10,7 @@ ASSUME = [
     'compiled generated object has no writable object (nm classes b B d D C V s S g G), (b) two contexts driven with '
     'interleaved histories each produce exactly the output they produce alone',
     'hardware memory models weaker than sequential consistency and sub-store interleavings are not modelled; the '
-    'thorough tier adds a two-thread run under ThreadSanitizer',
+    'two real threads on two contexts run under ThreadSanitizer at -O0 (2 configurations in the quick tier, all in the thorough tier)',
 ]
 
 WRITABLE = set('bBdDCVsSgG')
@@ -91,6 +91,24 @@ def run(c):
                     break
     c.coverage['correspondence']['two_context_interleavings'] = {'pairs': pairs, 'differences': diffs,
                                                                  'symbols_inspected': nsyms}
+    # two real threads, one context / buffer / platform state each, under ThreadSanitizer (-O0)
+    ts = {'configs': 0, 'reports': 0, 'build_failures': 0}
+    work = common.scratch()
+    for cs in cases[:(2 if c.tier == 'quick' else len(cases))]:
+        exe, info = hrt.build_tsan(cs.cfg, cs.ir, cs.dname, os.path.join(work, f't{cs.seed}'))
+        if exe is None:
+            ts['build_failures'] += 1
+            continue
+        r = subprocess.run([exe], capture_output=True, text=True, timeout=300,
+                           env=dict(os.environ, TSAN_OPTIONS='halt_on_error=0 report_signal_unsafe=0'))
+        ts['configs'] += 1
+        nrep = r.stderr.count('WARNING: ThreadSanitizer')
+        if nrep or r.returncode != 0:
+            ts['reports'] += nrep
+            c.violation({'property': 'C17', 'kind': 'ThreadSanitizer reports a data race (or the run fails) with two threads '
+                         'tracing on two distinct contexts', 'config_yaml': cs.text, 'dst': cs.dname, 'exit': r.returncode,
+                         'report': r.stderr[:3000]})
+    c.coverage['correspondence']['two_threads_tsan'] = ts
     rt.decide(c, ob, dis)
     if c.tier == 'thorough' and ob['ok']:
         ok, log = c.leanchecker(['BVM.Props.C17'])
